@@ -19,8 +19,14 @@ def run_one(prop, root, ov):
     repo = Repo(root, overrides=ov)
     r = Run(prop, 'quick', 0, repo)
     try:
+        from pmv import xlate as _x
+        from pmv.main import report_hazards, check_placeholders
+        _x.HAZARD_LOG[:] = []
+        _x.PLACEHOLDER_LOG[:] = []
         with contextlib.redirect_stdout(io.StringIO()):
             mod.check(r, repo)
+        report_hazards(r, repo, _x.HAZARD_LOG)
+        check_placeholders(repo, _x.PLACEHOLDER_LOG)
     except (AnchorError, Unsupported, AnalysisError) as e:
         return None, '%s: %s' % (type(e).__name__, str(e)[:200])
     except Exception as e:                                  # internal error
@@ -45,7 +51,7 @@ def main():
             continue
         if prop not in base_cache:
             r0, e0 = run_one(prop, root, None)
-            base_cache[prop] = {f.ident() for f in r0.findings} if r0 is not None else None
+            base_cache[prop] = {(f.ident(), f.sig) for f in r0.findings} if r0 is not None else None
         repo = Repo(root)
         ov = patch_overrides(repo, open(os.path.join(wb, n + '.diff')).read())
         if ov is None:
@@ -55,8 +61,8 @@ def main():
         if r is None:
             print('%-12s exit=2  %s' % (n, err))
             continue
-        new = [f for f in r.findings if f.ident() not in (base_cache[prop] or set())]
-        gone = [i_ for i_ in (base_cache[prop] or set()) if i_ not in {f.ident() for f in r.findings}]
+        new = [f for f in r.findings if (f.ident(), f.sig) not in (base_cache[prop] or set())]
+        gone = [i_ for i_ in (base_cache[prop] or set()) if i_ not in {(f.ident(), f.sig) for f in r.findings}]
         if new:
             f = new[0]
             print('%-12s exit=1  %s %s [%s] (%d new)%s' % (n, f.rule, f.construct, f.key, len(new),
